@@ -549,7 +549,12 @@ def has_duplicate_names(tree):
     return False
 
 
-_TAB_AFTER_SPACE = re.compile(r"(?:^|[\r\n])[ \t\f]* \t")
+_TAB_AFTER_SPACE = re.compile(r"(?:^\ufeff?|[\r\n])[ \t\f]* \t")
+
+
+def tab_after_space_lines(text):
+    """Number of lines whose leading blank run has a tab after a space (counts lines inside string literals too)."""
+    return len(_TAB_AFTER_SPACE.findall(text))
 
 
 def has_tab_after_space_indent(text):
